@@ -61,11 +61,51 @@ def run_clean(prop):
         shutil.rmtree(tmp, ignore_errors=True)
 
 
+def seeds(prop=None):
+    """Seeded changes kept under /verif/seeded (written by independent sub-agents): (name, property, patch path)."""
+    d = os.path.join(VERIF, "seeded")
+    out = []
+    if os.path.isdir(d):
+        for name in sorted(os.listdir(d)):
+            meta = os.path.join(d, name, "meta.json")
+            patch = os.path.join(d, name, "patch.diff")
+            if os.path.exists(meta) and os.path.exists(patch):
+                m = json.load(open(meta))
+                targets = sorted(m.get("detected_by", {}) or [m["property"]])
+                if prop is None or prop in targets:
+                    out.append((name, m["property"], patch, targets))
+    return out
+
+
+def run_seed(args):
+    name, sprop, patch, prop = args
+    tmp = tempfile.mkdtemp(prefix="vsa-selftest-")
+    try:
+        _copy_tree(tmp)
+        r = subprocess.run(["git", "apply", "--whitespace=nowarn", patch], cwd=tmp, capture_output=True, text=True)
+        if r.returncode != 0:
+            return dict(op=f"seed:{name}", status="skipped", reason="patch does not apply to the current tree")
+        env = dict(os.environ, VSA_REPO=tmp, VSA_EVIDENCE_DIR=os.path.join(tmp, "ev"))
+        r = subprocess.run([sys.executable, "-m", "vsa.main", prop, "quick"], cwd=VERIF, env=env,
+                           capture_output=True, text=True, timeout=600)
+        lines = [l for l in r.stdout.splitlines() if l.startswith("FINDING")]
+        if r.returncode == 1 and lines:
+            return dict(op=f"seed:{name}", status="fired", finding=lines[0][:200])
+        return dict(op=f"seed:{name}", status="missed", exit=r.returncode, findings=[], tail=r.stdout[-300:])
+    finally:
+        shutil.rmtree(tmp, ignore_errors=True)
+
+
 def run_all(prop=None, jobs=None):
     ops = [o for o in OPERATORS if prop is None or o["property"] == prop]
     jobs = jobs or min(16, os.cpu_count() or 4)
+    sd = []
+    for (name, sprop, patch, targets) in seeds(prop):
+        for t in targets:
+            if prop is None or t == prop:
+                sd.append((name, sprop, patch, t))
     with ThreadPoolExecutor(max_workers=jobs) as ex:
-        results = list(ex.map(run_operator, ops))
+        results = list(ex.map(run_operator, ops)) + list(ex.map(run_seed, sd))
     return results
 
 
